@@ -29,6 +29,8 @@ RunResult run_hist(const Plan &p, EventLog &log, RunStats &stats, Progress *prog
     asim::reset_run((unsigned char)p.knob("fill", 0xA5), p.knob("realloc", 0) ? asim::RA_INPLACE : asim::RA_MOVE);
     WorldCfg cfg = cfg_for(p.property);
     cfg.hookcfg = p.knob("hooks", 0) ? HK_BOTH : HK_DEFAULT;
+    cfg.hist_faults = p.knob("faults", 0) != 0;
+    if (cfg.hist_faults) stats.fault_counts["cfg_fault_injecting_run"]++;
     stats.fault_counts[cfg.hookcfg == HK_BOTH ? "cfg_custom_hooks" : "cfg_default_allocator"]++;
     stats.fault_counts[p.knob("realloc", 0) ? "cfg_realloc_inplace" : "cfg_realloc_move"]++;
     uint64_t moved0 = asim::counters().realloc_moved, inpl0 = asim::counters().realloc_inplace, judged0 = stats.judged_steps;
